@@ -22,7 +22,7 @@ _MOD_INFO = {}
 _NONE_PICKLE = pickle.dumps(None, protocol=pickle.HIGHEST_PROTOCOL)
 
 # concurrency / process APIs the model does not cover: their use makes a verdict impossible
-_FOREIGN = ("threading", "concurrent", "subprocess", "asyncio", "socket", "select", "_thread", "selectors", "mmap")
+_FOREIGN = ("concurrent", "subprocess", "asyncio", "socket", "select", "_thread", "selectors", "mmap")
 
 
 class SimTime(types.ModuleType):
@@ -274,7 +274,7 @@ def load_realign(repo):
     _MOD_INFO["sha"] = h.hexdigest()[:16]
     fake, subs = simmp.make_module()
     _MOD_INFO["fake_mp"] = fake
-    saved = {k: v for k, v in sys.modules.items() if k == "multiprocessing" or k.startswith("multiprocessing.") or k in ("time", "signal", "os")}
+    saved = {k: v for k, v in sys.modules.items() if k == "multiprocessing" or k.startswith("multiprocessing.") or k in ("time", "signal", "os", "threading", "queue")}
     for k in saved:
         del sys.modules[k]
     for k in [k for k in sys.modules if k == "gaftools" or k.startswith("gaftools.")]:
@@ -284,6 +284,11 @@ def load_realign(repo):
     sys.modules["time"] = SIM_TIME
     sys.modules["signal"] = SIM_SIGNAL
     sys.modules["os"] = SIM_OS
+    from . import simthreads
+
+    th_mod, q_mod = simthreads.make_modules()
+    sys.modules["threading"] = th_mod
+    sys.modules["queue"] = q_mod
     try:
         import gaftools  # noqa: F811
         import gaftools.cli  # noqa: F811
@@ -303,7 +308,7 @@ def load_realign(repo):
             _MOD_INFO["cli_main"] = None
     finally:
         for k in list(sys.modules):
-            if k == "multiprocessing" or k.startswith("multiprocessing.") or k in ("time", "signal", "os"):
+            if k == "multiprocessing" or k.startswith("multiprocessing.") or k in ("time", "signal", "os", "threading", "queue"):
                 del sys.modules[k]
         sys.modules.update(saved)
     gaftools.timer.time = SIM_TIME
@@ -656,6 +661,10 @@ def run_sim(repo, paths, cfg, decisions=None, keep_trace=True):
                 world.outcome = ["unsupported", str(e)]
             except BaseException as e:
                 world.outcome = ["exception", "%s: %s" % (type(e).__name__, str(e)[:160])]
+            if world.threads:
+                from . import simthreads
+
+                simthreads.wait_for_non_daemon_threads(world.parent)  # interpreter shutdown: threads first
             world.parent_atexit()
             world.atexit_done = True
         except (SimKilled, SimAbort):
